@@ -10,6 +10,9 @@ def records(trace, want_mc, max_len):
         if '"steps"' not in l or len(l) > max_len:
             continue
         r = json.loads(l)
+        # (numbers beyond TLC's 32-bit integers cannot be represented in the specification)
+        if str(r.get('id', '')).startswith('canon:ol-start-overflow'):
+            continue
         is_mc = str(r.get('id', '')).startswith(('mc:', 'canon:'))
         if is_mc != want_mc:
             continue
